@@ -41,6 +41,7 @@ type c19Case struct {
 	Ref    []int
 	Fail   []string // reference checks that failed
 	Skip   string   // not covered by the replay machine
+	OFlags []int    // positions of the nodes that carry a breakpoint flag after the session
 }
 
 func c19ReqCode(r c19Req) int {
@@ -168,7 +169,7 @@ func runC19(args []string) error {
 	thorough := *tier == "thorough"
 	nMain, nWild, shards := 34, 8, 16
 	if thorough {
-		nMain, nWild, shards = 1500, 300, 96
+		nMain, nWild, shards = 1500, 300, 192
 	}
 	root := newRng(*seed)
 	sm := newSummary("C19")
@@ -387,6 +388,12 @@ func runC19(args []string) error {
 						c.Region = "linebp-globals"
 					}
 				}
+				for pos, n := range s.Dump {
+					if n.BreakOnLine || n.BreakOnCall {
+						c.OFlags = append(c.OFlags, pos)
+					}
+				}
+				c.Ses.Dump = nil // keep the memory of a thorough run small
 			} else {
 				c.Skip = "no dump"
 			}
@@ -533,11 +540,8 @@ func runC19(args []string) error {
 			}
 			// observed flags and validity
 			var oflags, vlines, vfuncs, lines, funcs, reqs, markers []string
-			for pos, n := range g.N {
-				_ = n
-				if c.Ses.Dump[pos].BreakOnLine || c.Ses.Dump[pos].BreakOnCall {
-					oflags = append(oflags, fmt.Sprint(pos))
-				}
+			for _, pos := range c.OFlags {
+				oflags = append(oflags, fmt.Sprint(pos))
 			}
 			for k, l := range c.Spec.Lines {
 				lines = append(lines, fmt.Sprint(l))
